@@ -1,9 +1,10 @@
 #![feature(allocator_api)]
 // Unit V-search: the Search request and the collection layer.
 //   * search_request = the PREFIX of SearchStream::start_inner (src/search.rs) up to the channel set-up: the
-//     SearchRequest tree (RFC 4511 4.5.1) and the consumption of the one-shot search options.  The rest of
-//     start_inner (channel creation, op_call(LdapOp::Search(tx)), `.map(|_| self.state = Active)` -- a closure that
-//     captures &mut, outside this Verus) is not verified text; its contract is assumed in V-stream.
+//     SearchRequest tree (RFC 4511 4.5.1) and the consumption of the one-shot search options;
+//   * start_inner as a WHOLE (round 3): the channel, op_call(LdapOp::Search(tx)) and `.map(|_| self.state = Active)`, whose
+//     closure captures &mut -- lifted as `mark_active` (L7), call argument replaced (R12), Result::map = verified verif_then.
+//     V-stream's stub for start_inner states a consequence of the contract proved here.
 //   * Ldap::streaming_search_with and Ldap::search (src/ldap.rs), EntriesOnly::{next,finish} (src/adapters.rs).
 // Serves C02 (search request, modifier hand-over), C10 (search() collection, EntriesOnly).
 use vstd::prelude::*;
@@ -75,11 +76,33 @@ pub fn parse_filter(f: &str) -> (r: core::result::Result<Tag, ()>)
     ensures match filter_tree(f@) { Some(t) => r matches Ok(x) && tree(x) == t, None => r is Err }
 { unimplemented!() }
 
-pub struct Ldap { pub last_id: RequestId, pub timeout: Option<Duration>, pub controls: MaybeControls, pub search_opts: Option<SearchOptions>, pub chan: int }
+pub struct Ldap { pub last_id: RequestId, pub timeout: Option<Duration>, pub controls: MaybeControls, pub search_opts: Option<SearchOptions>, pub chan: int,
+    pub calls: Ghost<Seq<Call>> }
+// one op_call as the handle saw it (ghost record): the operation kind, the request, and the one-shot modifiers it consumed
+pub struct Call { pub items_to: int, pub req: Tag, pub timeout: Option<Duration>, pub controls: MaybeControls }
+pub struct ItemSender { pub id: int }
+pub enum LdapOp { Single, Search(ItemSender), Abandon(RequestId), Unbind }
+pub struct OpReply { pub g: u8 }
+pub struct OpFut { pub r: Result<OpReply> }
+impl OpFut { #[verifier::external_body] pub fn verif_await(self) -> (r: Result<OpReply>) ensures r == self.r { unimplemented!() } }
+pub uninterp spec fn rx_id(r: ItemReceiver) -> int;
+pub struct mpsc { }
+impl mpsc { #[verifier::external_body] pub fn unbounded_channel() -> (r: (ItemSender, ItemReceiver)) ensures r.0.id == rx_id(r.1) { unimplemented!() } }
+impl Ldap {
+    // contracts of Ldap::with_timeout / Ldap::op_call, discharged on the real text in unit V-ldap
+    #[verifier::external_body]
+    pub fn with_timeout(&mut self, d: Duration) -> (r: &mut Ldap)
+        ensures *final(self) == (Ldap { timeout: Some(d), ..*old(self) }), *final(r) == *final(self) { unimplemented!() }
+    #[verifier::external_body]
+    pub fn op_call(&mut self, op: LdapOp, req: Tag) -> (f: OpFut)
+        ensures op matches LdapOp::Search(tx) ==> final(self).calls@ == old(self).calls@.push(Call { items_to: tx.id, req: req, timeout: old(self).timeout, controls: old(self).controls }),
+            final(self).chan == old(self).chan, final(self).search_opts == old(self).search_opts,
+    { unimplemented!() }
+}
 impl Clone for Ldap {
     // contract of `impl Clone for Ldap`, discharged in V-ldap (C02.cloned_handle_starts_without_modifiers)
     #[verifier::external_body]
-    fn clone(&self) -> (r: Ldap) ensures r.chan == self.chan, r.last_id == 0, r.timeout is None, r.controls is None, r.search_opts is None { unimplemented!() }
+    fn clone(&self) -> (r: Ldap) ensures r.chan == self.chan, r.last_id == 0, r.timeout is None, r.controls is None, r.search_opts is None, r.calls@.len() == 0 { unimplemented!() }
 }
 
 // ---- RFC 4511 4.5.1 SearchRequest ::= [APPLICATION 3] SEQUENCE { baseObject, scope, derefAliases, sizeLimit,
@@ -128,6 +151,19 @@ pub struct SearchStream {
     pub items: Ghost<Seq<ResultEntry>>,
 }
 pub uninterp spec fn stream_result(s: SearchStream) -> LdapResult;
+// `res.map(|_| { <mark_active> })`: std's Result::map -- the closure runs exactly on Ok; an error passes through
+pub trait ThenExt: Sized {
+    spec fn was_ok(&self) -> bool;
+    fn verif_then(self, state: &mut StreamState) -> (r: Result<()>)
+        ensures self.was_ok() ==> (r is Ok && *final(state) == StreamState::Active),
+            !self.was_ok() ==> (r is Err && *final(state) == *old(state));
+}
+impl ThenExt for Result<OpReply> {
+    open spec fn was_ok(&self) -> bool { self is Ok }
+    fn verif_then(self, state: &mut StreamState) -> (r: Result<()>) {
+        match self { Ok(_x) => { SearchStream::mark_active(state); Ok(()) } Err(e) => Err(e) }
+    }
+}
 pub trait IntoAdapterVec { spec fn as_vec(&self) -> Seq<AdapterBox>; fn into(self) -> (r: Vec<AdapterBox>) ensures r@ == self.as_vec(); }
 pub struct EntriesOnly { pub refs: Vec<String> }
 impl EntriesOnly { pub fn new() -> (r: EntriesOnly) ensures r.refs@.len() == 0 { EntriesOnly { refs: Vec::new() } } }
@@ -194,6 +230,48 @@ impl SearchStream {
         filter_tree(filter@) matches Some(ft) ==> (r matches Ok(req) && tree(req) == spec_search(str_bytes(base@), scope,
             match old(self).ldap.search_opts { Some(o) => o, None => SearchOptions { deref: DerefAliases::Never, typesonly: false, timelimit: 0, sizelimit: 0 } },
             ft, attrs.v@)), //# C02.search_request_rfc4511_4.5.1
+//@end
+
+// ---- the WHOLE of start_inner: the request above, then the item channel, the re-armed timeout, op_call(Search(tx)), and --
+// on success only -- the stream becomes Active.  The final `.map(|_| { self.state = Active; })` captures `&mut self`: its
+// body is lifted as `mark_active` (L7) and the call argument replaced (R12); `Result::map` is the verified `verif_then`.
+//@lift name=start_inner::mark_active file=src/search.rs block=".await.map(|_|" as="fn mark_active(state: &mut StreamState)"
+//@ sub "self.state = " => "*state = " count=*
+//@ spec
+    ensures *final(state) == StreamState::Active, //# C10.a_started_stream_is_active
+//@end
+//@lift name=start_inner file=src/search.rs impl="impl<'a, S, A> SearchStream<'a, S, A>" fn=start_inner
+//@ sub "class: TagClass::Application,\n            inner: vec![" => "class: TagClass::Application,\n            inner: verif_vec8("
+//@ sub "            ],\n        });" => "            ),\n        });"
+//@ arg ".map(|_|" => "&mut self.state"
+//@ sub ".map(&mut self.state)" => ".verif_then(&mut self.state)"
+//@ closure at="|s| {" params="s: &S" ret="(o: Tag)"
+                            ensures tree(o) == t_os(s.s@.spec_bytes_of())
+//@ ret r
+//@ insert entry
+        broadcast use ax_str_bytes;
+//@ insert after-let req
+        proof {
+            let k = req->Sequence_0.inner@;
+            lemma_trees8(k);
+            let av = k[7]->Sequence_0.inner@;
+            lemma_trees_attrs(av, attrs.v@, av.len());
+        }
+//@ spec
+    ensures
+        filter_tree(filter@) is None ==> (r matches Err(LdapError::FilterParsing)) && final(self).ldap.calls@ == old(self).ldap.calls@ && final(self).state == old(self).state, //# C02+C10.unparsable_filter_nothing_sent_stream_not_started
+        filter_tree(filter@) matches Some(ft) ==> (final(self).ldap.calls@.len() == old(self).ldap.calls@.len() + 1 && ({
+            let c = final(self).ldap.calls@.last();
+            &&& final(self).ldap.calls@ == old(self).ldap.calls@.push(c)
+            &&& tree(c.req) == spec_search(str_bytes(base@), scope,
+                    match old(self).ldap.search_opts { Some(o) => o, None => SearchOptions { deref: DerefAliases::Never, typesonly: false, timelimit: 0, sizelimit: 0 } }, ft, attrs.v@)
+            &&& c.controls == old(self).ldap.controls
+        })), //# C02.the_search_request_is_issued_once_with_the_handles_controls
+        filter_tree(filter@) is Some ==> final(self).ldap.calls@.last().timeout == old(self).ldap.timeout, //# C12.the_pending_timeout_covers_the_search_request_itself
+        final(self).timeout == old(self).ldap.timeout, //# C12.the_stream_keeps_the_timeout_for_every_next
+        filter_tree(filter@) is Some ==> (final(self).rx matches Some(rx) && rx_id(rx) == final(self).ldap.calls@.last().items_to), //# C10.items_of_this_search_arrive_at_this_streams_receiver
+        r is Ok ==> final(self).state == StreamState::Active, //# C10.a_started_stream_is_active
+        r is Err ==> final(self).state == old(self).state, //# C10.a_failed_start_leaves_the_state_alone
 //@end
 }
 
